@@ -109,6 +109,26 @@ def r11_8(ck, F):
               hr.loc(tb), {"path": [hr.loc(x) for x in (p or [])][:12]})
 
 
+def r11_9(ck, F):
+    ck.rule("R11.9", "the receiver's `closed` flag records a close notification that has been queued: in chmux::Receiver::close "
+            "no suspension point can follow the store closed = true (the flag is set after the ReceiverClosed event was handed "
+            "to the dispatcher queue, not before)",
+            "close() cancelled while waiting for a slot in the shared event queue (back pressure): the flag is already set, "
+            "ReceiverClosed was never queued, every later close() is a silent no-op — the remote sender never learns of the "
+            "close", floor=1)
+    b = F.main_body("chmux::receiver::Receiver::close")
+    stores = [(bb, i) for bb, i, s in b.field_stores("closed") if s["rv"]["r"] == "use" and const_value(b.expr(s["rv"]["o"])) == 1]
+    if not stores:
+        raise mir.AnchorMissing("store closed = true in chmux::Receiver::close")
+    ys = set(b.yields())
+    for bb, i in stores:
+        after = b.reach([bb], include_start=True) & ys
+        ck.expect(not after, "Receiver::close#flag-after-notify", "no Yield reachable after closed = true",
+                  f"chmux::Receiver::close sets closed = true at {b.loc(bb, i)} and can then suspend at "
+                  f"{b.loc(sorted(after)[0]) if after else ''}: a cancelled close() leaves the flag set without the notification",
+                  b.loc(bb, i))
+
+
 def r11_3(ck, F):
     ck.rule("R11.3", "close gates new sends only: in CreditUser::request / try_request the closed test dominates every "
             "grant (store to the pool / Ok result); the ReceiveClose arm leaves receiver_tx_data untouched",
@@ -262,5 +282,7 @@ def r11_7(ck, F):
 
 
 def run(ck, F):
-    for r in (r11_1, r11_2, r11_3, r11_4, r11_5, r11_6, r11_7, r11_8):
+    for r in (r11_1, r11_2, r11_3, r11_4, r11_5, r11_6, r11_7, r11_8, r11_9):
         ck.run_rule(r)
+    import c19
+    ck.run_rule(c19.r19_5)     # a held-back connection failure must surface instead of a clean end-of-stream (all four receive paths)
